@@ -116,7 +116,7 @@ Section BsgsProofs.
     discrete_log G gadd geqb fuel tb (nm x base) = DlFound x.
   Proof.
     intros Hx Hx64 Hf. unfold discrete_log.
-    pose proof (dl_go_correct x Hx Hx64 fuel 0) as H. rewrite N.mul_0_l, N.sub_0_r in H. apply H; lia.
+    pose proof (dl_go_correct x Hx Hx64 fuel 0) as H. rewrite N.mul_0_l, !N.sub_0_r in H. apply H; [apply N.le_0_l|exact Hf].
   Qed.
 
   (** the number of giant steps is exact: with x/m or fewer lookups the loop has not returned *)
@@ -141,7 +141,7 @@ Section BsgsProofs.
     discrete_log G gadd geqb fuel tb (nm x base) = DlFuel.
   Proof.
     intros Hx Hf. unfold discrete_log.
-    pose proof (dl_go_needs_steps x Hx fuel 0) as H. rewrite N.mul_0_l, N.sub_0_r in H. apply H; lia.
+    pose proof (dl_go_needs_steps x Hx fuel 0) as H. rewrite N.mul_0_l, !N.sub_0_r in H. apply H. rewrite N.add_0_r. exact Hf.
   Qed.
 End BsgsProofs.
 
